@@ -270,8 +270,63 @@ def run(ctx):
             if ctx.report({'clause': 'inferred_hint_rejects', 'kind': 'self_referential', 'name': pr['name']}, pr,
                           'the hint inferred from a self-referential container rejects it') == 'violation':
                 failures += 1
+    # containers of instances of *distinct classes that share a qualified name* (factory-made classes, repeated namedtuple /
+    # make_dataclass / type() calls): the inferred hint must keep both
+    probe = same_name_probe()
+    ctx.extra['same_name_classes_probe'] = probe
+    ctx.evaluations += len(probe)
+    for name, verdict in probe.items():
+        if verdict != 'accepted on every call':
+            failures += 1
+            ctx.report({'clause': 'inferred_hint_rejects', 'kind': 'same_named_classes'}, {'case': name, 'observed': verdict},
+                       'is_bearable(obj, infer_hint(obj)) fails for a container over distinct classes of one name: ' + name)
+            break
     if proof_err is not None and not failures:
         ctx.broken(f'{PROP} ({proof_err.what})', proof_err.log)
+
+
+def same_name_probe():
+    import subprocess
+    from harness.common import PY, impl_env
+    code = r'''
+import json, warnings, collections, dataclasses
+warnings.simplefilter('ignore')
+from beartype import BeartypeConf, BeartypeStrategy
+from beartype.door import infer_hint, is_bearable
+def make_record_class():
+    class Record:
+        def __init__(self, v): self.v = v
+    return Record
+RA, RB = make_record_class(), make_record_class()
+P1, P2 = collections.namedtuple('Point', 'x'), collections.namedtuple('Point', 'x y')
+D1, D2 = dataclasses.make_dataclass('Row', ['a']), dataclasses.make_dataclass('Row', ['b'])
+T1, T2 = type('Plugin', (), {}), type('Plugin', (), {})
+OBJS = {
+ 'list of two factory-made classes': [RA(1), RB(2)],
+ 'long tuple of two factory-made classes': (RA(1), RB(2)) * 6,
+ 'list of two namedtuple versions': [P1(1), P2(1, 2)],
+ 'list of two make_dataclass classes': [D1(1), D2(2)],
+ 'list of the two classes themselves': [T1, T2],
+ 'nested in a dict in a list': [{'plugins': [T1(), T2()]}],
+ 'set of instances': {T1(), T2()},
+ 'control: differently named classes': [RA(1), P1(1)],
+}
+out = {}
+on = BeartypeConf(strategy=BeartypeStrategy.On)
+for name, obj in OBJS.items():
+    try:
+        h = infer_hint(obj)
+        bad = sum(1 for _ in range(40) if not is_bearable(obj, h)) + sum(1 for _ in range(3) if not is_bearable(obj, h, conf=on))
+        out[name] = 'accepted on every call' if bad == 0 else 'rejected on %d of 43 calls (hint %r)' % (bad, h)
+    except Exception as e:
+        out[name] = 'raised ' + type(e).__name__ + ': ' + str(e)[:120]
+print(json.dumps(out))
+'''
+    p = subprocess.run([PY, '-c', code], capture_output=True, text=True, env=impl_env(), timeout=300)
+    try:
+        return json.loads(p.stdout.strip().splitlines()[-1])
+    except Exception:  # noqa
+        return {'probe_failed': p.stderr[-600:] or 'no output'}
 
 
 def replay(ctx, path):
